@@ -132,11 +132,28 @@ VARMARK_GLYPHS = ["a", "b", "c", "d", "m", "a_b", "a.heavy", "unused"]
 VARMARK_CMAP = {97: "a", 98: "b", 99: "c", 100: "d", 0x301: "m"}
 
 
+# ---- closure needs several passes: nested contextual lookups whose context glyph is produced later ------
+FEA_FIXPOINT = LANGSYS + """
+lookup MKE { sub e by e.alt; } MKE;
+lookup N { sub e.alt a' by a.alt; } N;
+lookup N3 { sub a.alt c' by c.alt; } N3;
+feature calt {
+  lookup OUTER {
+    sub a' lookup N;
+    sub c' lookup N3;
+    sub e' lookup MKE;
+  } OUTER;
+} calt;
+"""
+FIXPOINT_GLYPHS = ["a", "c", "e", "e.alt", "a.alt", "c.alt", "unused"]
+
+
 def _specs():
     S = {}
     S["gsub-ttf"] = {"kind": "ttf", "shapes": "mixed", "glyphs": GSUB_GLYPHS, "fea": FEA_GSUB}
     S["gsub-cff"] = {"kind": "cff", "shapes": "mixed", "glyphs": GSUB_GLYPHS, "fea": FEA_GSUB, "coef": 3}
     S["ctx-ttf"] = {"kind": "ttf", "shapes": "mixed", "glyphs": CTX_GLYPHS, "fea": FEA_CTX}
+    S["fixpoint-ttf"] = {"kind": "ttf", "shapes": "mixed", "glyphs": FIXPOINT_GLYPHS, "cmap": {0x61: "a", 0x63: "c", 0x65: "e"}, "fea": FEA_FIXPOINT}
     S["gpos-ttf"] = {"kind": "ttf", "shapes": "mixed", "glyphs": GPOS_GLYPHS, "fea": FEA_GPOS}
     S["gpos-cff"] = {"kind": "cff", "shapes": "mixed", "glyphs": GPOS_GLYPHS, "fea": FEA_GPOS, "coef": 2}
     S["attach-ttf"] = {"kind": "ttf", "shapes": "mixed", "glyphs": ATTACH_GLYPHS, "cmap": ATTACH_CMAP, "fea": FEA_ATTACH2}
